@@ -18,13 +18,13 @@ variable {α X Lb : Type} [LinearOrder α] [DecidableEq Lb]
 
 /-- what the upper level reads from the envelope `a` of the group `e0 :: es` for the row `l`: nothing
 when no event of the group lists `l`, else the group's own by-label fold (relabelled) -/
-theorem upper_row (d d' nc : Nat) (hx : Bool) (l : Lb) (e0 : Ev α X Lb) (es : List (Ev α X Lb))
-    (a : Acc α X Lb) (u : Ev α X Lb) (h0 : EvOk hx e0) (hes : ∀ e ∈ es, EvOk hx e ∧ e.cat.hasMx = true)
+theorem upper_row (d d' nc : Nat) (l : Lb) (e0 : Ev α X Lb) (es : List (Ev α X Lb))
+    (a : Acc α X Lb) (u : Ev α X Lb) (h0 : EvOk e0) (hes : ∀ e ∈ es, EvOk e)
     (ha : formCat d nc none (e0 :: es) = .ok (some a)) (hu : u.cat = accToCat a) :
     ((∃ e ∈ e0 :: es, l ∈ e.cat.labels) →
         evRow d' l u = some (relabel u.case u.useExt d' (rowFold d l (e0 :: es)))) ∧
     ((¬ ∃ e ∈ e0 :: es, l ∈ e.cat.labels) → evRow d' l u = none) := by
-  obtain ⟨a', ha', -, hnd, hmem, hlen, -, hrow⟩ := form_extreme_by_label d nc hx e0 es h0 hes
+  obtain ⟨a', ha', -, hnd, hmem, hlen, -, -, -, hrow⟩ := form_extreme_by_label d nc e0 es h0 hes
   rw [ha] at ha'
   simp only [Except.ok.injEq, Option.some.injEq] at ha'
   subst ha'
@@ -45,9 +45,9 @@ theorem upper_row (d d' nc : Nat) (hx : Bool) (l : Lb) (e0 : Ev α X Lb) (es : L
 envelope `a_g` formed, and let the upper level run over events `u_g` whose category is that envelope.
 Then for every row label the maximum and minimum of the upper envelope are those of ONE PASS over all
 the events of all the groups. -/
-theorem form_extreme_nested_by_label_values (d d' : Nat) (hx : Bool) (l : Lb)
+theorem form_extreme_nested_by_label_values (d d' : Nat) (l : Lb)
     (gs : List (Nat × Ev α X Lb × List (Ev α X Lb))) (accs : List (Acc α X Lb)) (us : List (Ev α X Lb))
-    (hok : ∀ g ∈ gs, EvOk hx g.2.1 ∧ ∀ e ∈ g.2.2, EvOk hx e ∧ e.cat.hasMx = true)
+    (hok : ∀ g ∈ gs, EvOk g.2.1 ∧ ∀ e ∈ g.2.2, EvOk e)
     (hacc : List.Forall₂ (fun g a => formCat d g.1 none (g.2.1 :: g.2.2) = .ok (some a)) gs accs)
     (hus : List.Forall₂ (fun u a => u.cat = accToCat a) us accs) :
     (rowFold d' l us).hi.v = (rowFold d l (gs.flatMap fun g => g.2.1 :: g.2.2)).hi.v ∧
@@ -75,7 +75,7 @@ theorem form_extreme_nested_by_label_values (d d' : Nat) (hx : Bool) (l : Lb)
           rename_i a accs' u us'
           obtain ⟨ih1, ih2⟩ := ih accs' us' (fun g' hg' => hok g' (List.mem_cons_of_mem _ hg')) hacc' hus'
           obtain ⟨hg0, hgs⟩ := hok g List.mem_cons_self
-          obtain ⟨hyes, hno⟩ := upper_row d d' g.1 hx l g.2.1 g.2.2 a u hg0 hgs hga hua
+          obtain ⟨hyes, hno⟩ := upper_row d d' g.1 l g.2.1 g.2.2 a u hg0 hgs hga hua
           refine ⟨?_, ?_⟩
           · rw [List.map_cons, upperVals]
             by_cases hex : ∃ e ∈ g.2.1 :: g.2.2, l ∈ e.cat.labels
@@ -84,7 +84,7 @@ theorem form_extreme_nested_by_label_values (d d' : Nat) (hx : Bool) (l : Lb)
                 have hlen : e.cat.rows.length = e.cat.labels.length := by
                   rcases List.mem_cons.1 he with rfl | he'
                   · exact hg0.len
-                  · exact (hgs e he').1.len
+                  · exact (hgs e he').len
                 obtain ⟨r, hr⟩ := Option.isSome_iff_exists.1 ((evRow_isSome_iff d l e hlen).2 hle)
                 intro hnil
                 have : r ∈ (g.2.1 :: g.2.2).filterMap (evRow d l) := List.mem_filterMap.2 ⟨e, he, hr⟩
@@ -115,14 +115,14 @@ end nest
 example :
     let row : Int → Int → Cur Int (Option Int) String :=
       fun hi lo => ⟨⟨some hi, some 0, "x"⟩, ⟨some lo, some 1, "x"⟩⟩
-    let A : Ev Int Int String := ⟨0, "A", false, ⟨["a", "b"], true, true, [row 2 0, row 3 (-4)]⟩⟩
-    let B : Ev Int Int String := ⟨1, "B", false, ⟨["b", "c"], true, true, [row 7 (-9), row 1 1]⟩⟩
-    let C : Ev Int Int String := ⟨0, "C", false, ⟨["c", "a"], true, true, [row 5 5, row 9 (-1)]⟩⟩
+    let A : Ev Int Int String := ⟨0, "A", false, ⟨["a", "b"], true, [row 2 0, row 3 (-4)]⟩⟩
+    let B : Ev Int Int String := ⟨1, "B", false, ⟨["b", "c"], true, [row 7 (-9), row 1 1]⟩⟩
+    let C : Ev Int Int String := ⟨0, "C", false, ⟨["c", "a"], true, [row 5 5, row 9 (-1)]⟩⟩
     (formCat 2 2 none [A, B]).toOption.join.map (fun a => (accToCat a).labels) = some ["a", "b", "c"] ∧
     (formCat 2 1 none [C]).toOption.join.map (fun a => (accToCat a).labels) = some ["c", "a"] ∧
-    EvOk true A ∧ EvOk true B ∧ B.cat.hasMx = true ∧ EvOk true C := by
+    EvOk A ∧ EvOk B ∧ EvOk C := by
   intro row A B C
-  refine ⟨by decide +kernel, by decide +kernel, ?_, ?_, rfl, ?_⟩ <;>
-    exact ⟨by decide, by decide, rfl, fun h => absurd h (by decide)⟩
+  refine ⟨by decide +kernel, by decide +kernel, ?_, ?_, ?_⟩ <;>
+    exact ⟨by decide, by decide, fun h => absurd h (by decide)⟩
 
 end PyYetiVerif.C16
